@@ -8,7 +8,7 @@ import json
 import random
 
 from . import datasets
-from .pipeline import Run, load_findings
+from .pipeline import Run, load_findings, CODE
 from .syntax import normalize, digest, count_nodes
 
 QUERY_ASSUMPTIONS = [
@@ -80,7 +80,7 @@ def cache_index_findings(run, cases, traces=None):
         off = copy.deepcopy(c)
         off["evs"] = [{"op": "cfg", "caching": False}] + \
                      [dict(e, caching=False) if e["op"] == "cfg" else
-                      dict(e, b3=False, **{k: e[k] + 1 for k in ("eqto", "eqbag") if e.get(k, 0) > 0}) for e in off["evs"]]
+                      dict(e, b3=False, **{k: e[k] + 1 for k in ("eqto", "eqbag", "eqinst") if e.get(k, 0) > 0}) for e in off["evs"]]
         offs.append(off)
     n0 = run.cases
     t_off = run.replay(offs)
@@ -97,7 +97,7 @@ def cache_index_findings(run, cases, traces=None):
             groups.setdefault((it["nkeys"], it["nvals"]), []).append(it)
     missing, other = set(), set()
     for (nk, nv), ts in groups.items():
-        rej = run.validate_with("TraceIndex", ts, dict(NKeys=nk, NVals=nv, PreferWildcard=True, Judge="ref"), count=False)
+        rej = run.validate_with("TraceIndex", ts, dict(NKeys=nk, NVals=nv, PreferWildcard=False, Judge="ref"), count=False)
         for tid, rs in rej.items():
             (missing if rs[0]["clause"] == "retrieve.missing" else other).add(owner[tid])
     covered = missing - other
@@ -112,6 +112,16 @@ def cache_index_findings(run, cases, traces=None):
         run.extra["f2_cases_explained_by_stage_b3"] = run.extra.get("f2_cases_explained_by_stage_b3", 0) + \
             len({t["id"] for t in b3} - drifted - not_descent)
     return f, covered
+
+
+def _structural_finding(prop, case, rejections):
+    """Open findings that are identified by the shape of the program (scope) and the clauses that fail."""
+    for f in load_findings():
+        if f.get("scope") == "rule tree with a next_rule branch" and prop in [f["property"]] + f.get("manifests_in", []):
+            if all('"edge": "next"' in json.dumps(q.get("tree", {})) for q in case["qs"]) and \
+                    all(r["clause"] in f["clauses"] for r in rejections):
+                return f
+    return None
 
 
 class QueryCheck:
@@ -161,9 +171,13 @@ class QueryCheck:
             for tid, rs in rej.items():
                 t = tr_by_id[tid]
                 finding = classify(by_id[tid], t, rs) if classify else (f2 if tid in covered else None)
+                if finding is None:
+                    finding = _structural_finding(run.prop, by_id[tid], rs)
                 if finding is not None:
                     run.known_finding(finding, f"case {tid}: " + rs[0]["clause"])
                     run.extra["known_finding_cases"] = run.extra.get("known_finding_cases", 0) + 1
+                elif by_id[tid].get("_observe"):
+                    run.observation(by_id[tid]["_observe"], by_id[tid], t, rs)
                 else:
                     run.violation(by_id[tid], t, rs)
         self.cases = []
@@ -193,7 +207,7 @@ def check_C01(tier, seed):
     quick = tier == "quick"
     # Layer B against Layer A: the mechanism model yields exactly the filter of the domain, in order, each once
     run.mc("MechCheck", "mech-exact", constants=dict(G="G12", NV=1, LeafLimit=24 if quick else 49, MaxLeaves=2,
-                                                      MaxNot=1 if quick else 2, NeedNot=False, AndLeftTrueNeedsFalseSet=True, PreferWildcardB3=True),
+                                                      MaxNot=1 if quick else 2, NeedNot=False, **CODE),
            invariants=("MechEqualsSem",))
     progs = run.export("GenQuery", "G1-bfs", "PROG", constants=dict(
         G="G12", NV=1, LeafLimit=12 if quick else 49, MaxLeaves=2, MaxNot=1 if quick else 2, NeedNot=False),
@@ -266,11 +280,11 @@ def check_C02(tier, seed):
     rng = qc.rng
     quick = tier == "quick"
     run.mc("MechCheck", "mech-rows", constants=dict(G="G12", NV=2, LeafLimit=12 if quick else 24, MaxLeaves=2,
-                                                     MaxNot=1, NeedNot=False, AndLeftTrueNeedsFalseSet=True, PreferWildcardB3=True),
+                                                     MaxNot=1, NeedNot=False, **CODE),
            invariants=("MechEqualsSem", "Mech2EqualsSem"))
     # stage B2 on and_/or_ trees that mix the pairs of three variables (partial bindings, projected selections)
     run.mc("MechCheck", "mech-dedup", constants=dict(G="G3v", NV=3, LeafLimit=6, MaxLeaves=3 if quick else 4, MaxNot=0,
-                                                      NeedNot=False, AndLeftTrueNeedsFalseSet=True, PreferWildcardB3=True), invariants=("Mech2EqualsSem",))
+                                                      NeedNot=False, **CODE), invariants=("Mech2EqualsSem",))
     for nv in (2, 3):
         progs = _programs(run, nv, quick, sim_quick=800, sim_full=10000, leaf_quick=9 if nv == 2 else 8,
                           leaf_full=24 if nv == 2 else 16)
@@ -331,7 +345,7 @@ def check_C03(tier, seed):
     quick = tier == "quick"
     # Layer B: Not() as a construction-time rewrite (De Morgan, flag toggling, operator table) preserves the complement
     run.mc("MechCheck", "mech-negation", constants=dict(G="G12", NV=1, LeafLimit=16 if quick else 30, MaxLeaves=2, MaxNot=2,
-                                                         NeedNot=True, AndLeftTrueNeedsFalseSet=True, PreferWildcardB3=True), invariants=("MechEqualsSem",))
+                                                         NeedNot=True, **CODE), invariants=("MechEqualsSem",))
     for nv in (1, 2):
         progs = _programs(run, nv, quick, sim_quick=600, sim_full=8000, leaf_full=30 if nv == 1 else 20)
         if quick:
@@ -434,6 +448,9 @@ def check_C20(tier, seed):
     #     matching branch (PreferWildcard = FALSE): all histories, all lookups
     run.mc("CacheIndex", "complete-descent", constants=dict(NKeys=3, NVals=2, MaxOps=3 if quick else 4, PreferWildcard=False),
            invariants=("RetrieveOK", "CheckOK"), view="View")
+    #     and the descent the code had before "fix: IndexedCache.retrieve ..." (wildcard branch preferred) breaks it
+    run.mc("CacheIndex", "descent-before-the-repair", constants=dict(NKeys=3, NVals=2, MaxOps=3, PreferWildcard=True),
+           invariants=("RetrieveOK",), view="View", expect_violation="RetrieveOK", count=False)
     # (2) behaviours: exported histories
     cases = []
     nk, nv, mo = 3, 2, 2 if quick else 3
@@ -468,7 +485,7 @@ def check_C20(tier, seed):
     for t in traces:
         groups.setdefault((t["nkeys"], t["nvals"]), []).append(t)
     for (nk2, nv2), ts in sorted(groups.items()):
-        consts = dict(NKeys=nk2, NVals=nv2, PreferWildcard=True)
+        consts = dict(NKeys=nk2, NVals=nv2, PreferWildcard=False)
         rej = run.validate_with("TraceIndex", ts, dict(consts, Judge="ref"))
         # rejected by the reference: is it exactly the recorded deviation of the code's descent?
         dev = run.validate_with("TraceIndex", [t for t in ts if t["id"] in rej], dict(consts, Judge="dev"), count=False) \
@@ -869,17 +886,17 @@ def check_C05(tier, seed, extra_programs=None):
     run.assumptions = QUERY_ASSUMPTIONS
     qc = QueryCheck(run)
     findings = [f for f in load_findings() if f["property"] == "C05"]
-    # Layer B, stage B3 (operator result caches), first evaluation and re-evaluation against the denotation:
-    #  - two-variable programs: holds with the descent the code has;
-    #  - three independent variables under and_/or_: holds with the complete descent, and with the code's descent TLC
-    #    finds the programs of finding F2 (the deviation model must break the obligation, else F2 is mis-recorded)
+    # Layer B, stage B3 (operator result caches), first evaluation and re-evaluation against the denotation: holds for
+    # two-variable programs and for and_/or_ trees over three independent variables with the descent the code has now
+    # (every matching branch); with the descent it had before "fix: IndexedCache.retrieve ..." TLC finds the programs
+    # that lost rows (the deviation must break the obligation, else the repair is mis-recorded)
     b3 = dict(MaxNot=1, NeedNot=False, AndLeftTrueNeedsFalseSet=True)
     run.mc("MechCheck", "b3-two-variables", constants=dict(b3, G="G12", NV=2, LeafLimit=8 if quick else 16, MaxLeaves=2,
-                                                            PreferWildcardB3=True), invariants=("Mech3EqualsSem",))
-    run.mc("MechCheck", "b3-complete-descent", constants=dict(b3, G="G1x", NV=3, LeafLimit=6, MaxLeaves=3, MaxNot=0,
-                                                               PreferWildcardB3=False), invariants=("Mech3EqualsSem",))
-    run.mc("MechCheck", "b3-code-descent-F2", constants=dict(b3, G="G1x", NV=3, LeafLimit=6, MaxLeaves=3, MaxNot=0,
-                                                             PreferWildcardB3=True), invariants=("Mech3EqualsSem",),
+                                                            PreferWildcardB3=False), invariants=("Mech3EqualsSem",))
+    run.mc("MechCheck", "b3-three-variables", constants=dict(b3, G="G1x", NV=3, LeafLimit=6, MaxLeaves=3, MaxNot=0,
+                                                              PreferWildcardB3=False), invariants=("Mech3EqualsSem",))
+    run.mc("MechCheck", "b3-descent-before-the-repair", constants=dict(b3, G="G1x", NV=3, LeafLimit=6, MaxLeaves=3, MaxNot=0,
+                                                                      PreferWildcardB3=True), invariants=("Mech3EqualsSem",),
            expect_violation="Mech3EqualsSem", count=False)
     for nv in (1, 2, 3):
         progs = _programs(run, nv, quick, sim_quick=500, sim_full=8000, leaf_quick=10 if nv < 3 else 8,
@@ -915,7 +932,7 @@ def check_C05(tier, seed, extra_programs=None):
             qc.add(W, [q, copy.deepcopy(q)], _c05_events(rng))
     # rule trees and rules: evaluated under on, on, off, on
     for nv in (1, 2):
-        trees = run.export("GenRule", f"trees{nv}", "TREE", constants=dict(MaxNodes=3, NConds=3 if quick else 4, NV=nv),
+        trees = run.export("GenRule", f"trees{nv}", "TREE", constants=dict(MaxNodes=3, NConds=3 if quick else 4, NV=nv, WithNext=False),
                            invariants=("Export", "SizeOK"), count=False)
         for t in rng.sample(trees, min(len(trees), 150 if quick else 4000)):
             W, doms = _world_and_doms(rng, nv, quick)
@@ -924,6 +941,21 @@ def check_C05(tier, seed, extra_programs=None):
             qc.add(W, [q, copy.deepcopy(q)], [{"op": "cfg", "caching": True}, {"op": "rule", "qi": 1}, {"op": "rule", "qi": 1},
                                               {"op": "cfg", "caching": False}, {"op": "rule", "qi": 2}, {"op": "rule", "qi": 1},
                                               {"op": "cfg", "caching": True}, {"op": "rule", "qi": 2}])
+    # rule trees that also use `with next_rule(c):` branches: what such a branch means is not fixed by the listed properties,
+    # that the answer is the same under both configurations and on re-evaluation is (C05 speaks of every rule tree)
+    for nv in (1, 2):
+        trees = run.export("GenRule", f"next{nv}", "TREE", constants=dict(MaxNodes=3, NConds=3, NV=nv, WithNext=True),
+                           invariants=("Export", "SizeOK"), count=False)
+        trees = [t for t in trees if '"edge": "next"' in json.dumps(t)]
+        for t in rng.sample(trees, min(len(trees), 150 if quick else 4000)):
+            W, doms = _world_and_doms(rng, nv, quick)
+            q = {"vars": [{"cls": "A", "dom": doms[i]} for i in range(nv)], "flats": [], "bound": [], "desc": "entity",
+                 "quant": "an", "sel": [], "cond": {"k": "true"}, "tree": t, "varkeys": list(range(1, nv + 1))}
+
+            def rule(qi, eq):
+                return {"op": "rule", "qi": qi, "nosem": True, "eqinst": eq}
+            qc.add(W, [q, copy.deepcopy(q)], [{"op": "cfg", "caching": True}, rule(1, 0), rule(1, 2), {"op": "cfg", "caching": False},
+                                              rule(2, 2), rule(1, 2), {"op": "cfg", "caching": True}, rule(2, 2)], tag="next_rule")
     # histories that interleave configuration switches with full, partial and aborted evaluations of two query objects
     behs = run.export("EvalSession", "cfg-walks", "BEH", constants=dict(NQ=2, MaxLen=7, WithCfg=True, WithBuild=True),
                       invariants=("Export",), constraint="Bound", simulate=8000 if quick else 90000, depth=8, count=False)
@@ -1308,13 +1340,14 @@ def check_C12(tier, seed):
     shapes = set()
     # Layer B: the operator structure rule.py wires while blocks are written, evaluated by the conclusion selectors,
     # equals the ripple-down interpreter for every tree and every valuation of the branch conditions
-    run.mc("RuleMech", "wiring", constants=dict(MaxNodes=5 if quick else 7, RefinementRelinks=True, AlternativeClimbsAll=True),
+    run.mc("RuleMech", "wiring", constants=dict(MaxNodes=5 if quick else 7, RefinementRelinks=True, AlternativeClimbsAll=True, WithNext=False),
            invariants=("WiredEqualsFire", "ParentsConsistent"), view="View")
     for nv in (1, 2):
-        trees = run.export("GenRule", f"trees{nv}", "TREE", constants=dict(MaxNodes=3 if quick else 4, NConds=3 if quick else 4, NV=nv),
+        trees = run.export("GenRule", f"trees{nv}", "TREE", constants=dict(MaxNodes=3 if quick else 4, NConds=3 if quick else 4, NV=nv,
+                                                                              WithNext=False),
                            invariants=("Export", "SizeOK"))
-        trees += run.export("GenRule", f"walk{nv}", "TREE", constants=dict(MaxNodes=6, NConds=6, NV=nv), invariants=("Export", "SizeOK"),
-                            simulate=300 if quick else 6000, depth=14)
+        trees += run.export("GenRule", f"walk{nv}", "TREE", constants=dict(MaxNodes=6, NConds=6, NV=nv, WithNext=False),
+                            invariants=("Export", "SizeOK"), simulate=300 if quick else 6000, depth=14)
         cap = 1500 if quick else 30000
         if len(trees) > cap:
             trees = rng.sample(trees, cap)
@@ -1326,6 +1359,21 @@ def check_C12(tier, seed):
                 q = {"vars": [{"cls": "A", "dom": doms[i]} for i in range(nv)], "flats": [], "bound": [], "desc": "entity",
                      "quant": "an", "sel": [], "cond": {"k": "true"}, "tree": t, "varkeys": list(range(1, nv + 1))}
                 qc.add(W, [q], [{"op": "rule", "qi": 1}])
+
+    # beyond C12's wording: trees that also contain `with next_rule(c):` branches (always consulted as well).  The
+    # wiring model covers them (RuleMech, WithNext) and they are executed and judged like the others, but a disagreement
+    # is reported as an OBSERVATION, not as a violation of C12 (the property speaks of refinement and alternative).
+    run.mc("RuleMech", "wiring-next", constants=dict(MaxNodes=5 if quick else 6, RefinementRelinks=True, AlternativeClimbsAll=True,
+                                                      WithNext=True), invariants=("WiredEqualsFire", "ParentsConsistent"), view="View")
+    for nv in (1, 2):
+        trees = run.export("GenRule", f"next{nv}", "TREE", constants=dict(MaxNodes=3 if quick else 4, NConds=3, NV=nv, WithNext=True),
+                           invariants=("Export", "SizeOK"), count=False)
+        trees = [t for t in trees if '"edge": "next"' in json.dumps(t)]
+        for t in rng.sample(trees, min(len(trees), 400 if quick else 6000)):
+            W, doms = _world_and_doms(rng, nv, quick)
+            q = {"vars": [{"cls": "A", "dom": doms[i]} for i in range(nv)], "flats": [], "bound": [], "desc": "entity",
+                 "quant": "an", "sel": [], "cond": {"k": "true"}, "tree": t, "varkeys": list(range(1, nv + 1))}
+            qc.add(W, [q], [{"op": "rule", "qi": 1}, {"op": "rule", "qi": 1}], _observe="rule trees with next_rule branches")
 
     def nontrivial(t):
         ev = t["evs"][0]
